@@ -238,6 +238,11 @@ func runC02Seq(run *Run, seed int64, cfg c01Cfg, seq []accusation) (out []*c01Re
 		addr := append([]byte(nil), self.Addr...)
 		if a.AltMeta {
 			meta = []byte("someone-elses-meta")
+			if si%3 == 1 {
+				// ... of the maximum size the protocol allows
+				meta = bytes.Repeat([]byte{'M'}, memberlist.MetaMaxSize)
+				run.Cell("accuse", "alt-meta-512-bytes", a.Path)
+			}
 		}
 		if a.AltVsn {
 			vsn = []uint8{1, 4, 3, 0, 0, 0}
